@@ -4,6 +4,7 @@
     [sel_pure cur next L] is the set of files scan keeps for listing L, [nv e] = versionFromPath of e's path,
     [scan_pure] is scan's result ([C19_scan_never_panics] shows scan = Ok scan_pure on EVERY input). *)
 From ZV Require Import Lib.Base Model.Watcher Proofs.Watcher Model.WatchLoop Proofs.WatchLoop Proofs.WatchCompose.
+From ZV Require Import Model.RankedStore Proofs.RankedStore Proofs.WatcherStore.
 
 (** versionFromPath and DirectoryWatcher.scan terminate without panic on every path / listing / state
     (after fix 5288900; before it C19_version_from_path_no_panic_refuted held: "x_.z" panicked). *)
@@ -157,6 +158,50 @@ Theorem C19_after_tick_loaded_equals_disk :
 Proof. exact tick_loaded_equals_disk. Qed.
 Print Assumptions C19_after_tick_loaded_equals_disk.
 
+(** ---- a list HELD by a running search (Model/RankedStore.v: slices are (address, length) headers into a store of
+    backing arrays, so aliasing is explicit; replace = [publish_cow], a fresh array per publication; getLoaded hands
+    out the current header, not a copy).  [scans_rs] = the scan/loader model with its publications going through the
+    store.  A search takes its list after ANY history Ls1; the watcher goes on through ANY history Ls2 (shards
+    replaced, dropped, added): the held list still reads exactly the map that was loaded after Ls1 — with
+    C19_snapshot_consistent: one consistent version per repository for the whole search.  No hypothesis at all. *)
+Theorem C19_held_snapshot_immutable : forall (cur next : Z) (Ls1 Ls2 : list (list fent)),
+  let p1 := scans_rs cur next wrs_init Ls1 in
+  let p2 := scans_rs cur next p1 Ls2 in
+  fst p1 = scans cur next w_init Ls1 /\
+  read (rs_store (snd p2)) (get_loaded (snd p1)) = Some (w_loaded (fst p1)).
+Proof. exact held_list_immutable. Qed.
+Print Assumptions C19_held_snapshot_immutable.
+
+(** ... and every list published in the MIDDLE of a scan (after its drop, before its load; a search may start there):
+    each header handed out while scanning L is one of the values of C19_snapshot_consistent and reads that value after
+    any further history. *)
+Theorem C19_midscan_snapshot_immutable :
+  forall (cur next : Z) (Ls1 : list (list fent)) (L : list fent) (Ls2 : list (list fent)) (s : shdr) (v : list (path * N)),
+  let p1 := scans_rs cur next wrs_init Ls1 in
+  In (s, v) (pub_trace (snd p1) (o_snaps (scan_pure cur next L (fst p1)))) ->
+  In v (o_snaps (scan_pure cur next L (scans cur next w_init Ls1))) /\
+  read (rs_store (snd (scans_rs cur next p1 (L :: Ls2)))) s = Some v.
+Proof. exact midscan_list_immutable. Qed.
+Print Assumptions C19_midscan_snapshot_immutable.
+
+(** The store-level statement for arbitrary publications (the end-to-end harness cases CHeld use it directly). *)
+Theorem C19_published_list_immutable : forall (A : Type) (st : ranked_state A) (vs : list (list A)) (s : shdr) (x : list A),
+  read (rs_store st) s = Some x -> read (rs_store (publish_all st vs)) s = Some x.
+Proof. intros A st vs s x. apply held_snapshot_immutable. Qed.
+Print Assumptions C19_published_list_immutable.
+
+(** With in-place reuse of the previous list's storage ([publish_reuse]: `ranked = ranked[:0]` when the capacity
+    suffices — NOT what replace does) the statement is false: a search holding [a1; b1; c1; d1] sees a2 after a was
+    replaced, and [a2; c1; d1; d1] after b was dropped: b is missed and d searched twice. *)
+Theorem C19_held_snapshot_immutable_inplace_reuse_refuted :
+  exists (st : ranked_state N) (v : list N) (s : shdr) (x : list N),
+    read (rs_store st) s = Some x /\ read (rs_store (publish_reuse st v)) s <> Some x.
+Proof.
+  exists (publish_cow rs_init [11; 21; 31; 41]%N), [12; 21; 31; 41]%N, reuse_demo_held, [11; 21; 31; 41]%N.
+  vm_compute. split; [reflexivity|discriminate].
+Qed.
+Print Assumptions C19_held_snapshot_immutable_inplace_reuse_refuted.
+
 (** ---- non-vacuity *)
 Definition s (l : list N) := l.
 Definition pA16 : path := [97; 95; 118; 49; 54; 46; 48; 46; 122; 111; 101; 107; 116]%N.   (* a_v16.0.zoekt *)
@@ -220,3 +265,28 @@ Example ex_composed_run :
   exists c, crun (c_init exL1) (pre ++ post) = Some c /\ quiescent (c_loop c) = true /\
             c_hist c = [exL1; exL2] ++ [exL3] /\ c_dir c = exL3.
 Proof. vm_compute. eexists. repeat split. Qed.
+
+(** a held list across a real history: taken after exL1 (two shards loaded), then exL2 drops a_v16, loads a_v17 and
+    reloads b (publishing twice), exL3 changes nothing loadable: the held header still reads the two shards of exL1,
+    while getLoaded now returns something else *)
+Example ex_held_across_history :
+  let p1 := scans_rs 16 17 wrs_init [exL1] in
+  let p2 := scans_rs 16 17 p1 [exL2; exL3] in
+  read (rs_store (snd p2)) (get_loaded (snd p1)) = Some [(pB16, 2%N); (pA16, 1%N)] /\
+  read (rs_store (snd p2)) (get_loaded (snd p2)) = Some [(pB16, 5%N); (pA17, 3%N)] /\
+  length (rs_store (snd p2)) = 4.
+Proof. vm_compute. repeat split. Qed.
+Example ex_midscan_header :
+  let p1 := scans_rs 16 17 wrs_init [exL1] in
+  map snd (pub_trace (snd p1) (o_snaps (scan_pure 16 17 exL2 (fst p1)))) = [[(pB16, 2%N)]; [(pB16, 5%N); (pA17, 3%N)]].
+Proof. vm_compute. reflexivity. Qed.
+Example ex_reuse_demo :
+  let st0 := publish_cow rs_init [11; 21; 31; 41]%N in
+  let st2 := publish_reuse (publish_reuse st0 [12; 21; 31; 41]%N) [12; 31; 41]%N in
+  read (rs_store st2) reuse_demo_held = Some [12; 31; 41; 41]%N.
+Proof. vm_compute. reflexivity. Qed.
+(** the runner's CHeld case accepts a faithful run and rejects the in-place reading *)
+Example ex_cheld :
+  c19_ok (CHeld [(0, 1); (1, 1); (2, 1)]%N [[(0, 2); (1, 1); (2, 1)]; [(0, 2); (2, 1)]]%N [(0, 1); (1, 1); (2, 1)]%N) = true /\
+  c19_ok (CHeld [(0, 1); (1, 1); (2, 1)]%N [[(0, 2); (1, 1); (2, 1)]; [(0, 2); (2, 1)]]%N [(0, 2); (2, 1); (2, 1)]%N) = false.
+Proof. vm_compute. split; reflexivity. Qed.
